@@ -339,7 +339,7 @@ func (p *Parser) parseMergeStatement() (ast.Statement, error) {
 	// Parse target table
 	tableRef, err := p.parseTableReference()
 	if err != nil {
-		return nil, goerrors.WrapError(goerrors.ErrCodeInvalidSyntax, "error parsing MERGE target table", models.Location{}, "", err)
+		return nil, goerrors.WrapError(goerrors.ErrCodeInvalidSyntax, "error parsing MERGE target table", p.currentLocation(), "", err)
 	}
 	stmt.TargetTable = *tableRef
 
@@ -367,7 +367,7 @@ func (p *Parser) parseMergeStatement() (ast.Statement, error) {
 		p.advance() // Consume (
 		subquery, err := p.parseSubquery()
 		if err != nil {
-			return nil, goerrors.WrapError(goerrors.ErrCodeInvalidSyntax, "error parsing MERGE source", models.Location{}, "", err)
+			return nil, goerrors.WrapError(goerrors.ErrCodeInvalidSyntax, "error parsing MERGE source", p.currentLocation(), "", err)
 		}
 		selectStmt, ok := subquery.(*ast.SelectStatement)
 		if !ok {
@@ -381,7 +381,7 @@ func (p *Parser) parseMergeStatement() (ast.Statement, error) {
 	} else {
 		sourceRef, err := p.parseTableReference()
 		if err != nil {
-			return nil, goerrors.WrapError(goerrors.ErrCodeInvalidSyntax, "error parsing MERGE source", models.Location{}, "", err)
+			return nil, goerrors.WrapError(goerrors.ErrCodeInvalidSyntax, "error parsing MERGE source", p.currentLocation(), "", err)
 		}
 		stmt.SourceTable = *sourceRef
 	}
@@ -407,7 +407,7 @@ func (p *Parser) parseMergeStatement() (ast.Statement, error) {
 
 	onCondition, err := p.parseExpression()
 	if err != nil {
-		return nil, goerrors.WrapError(goerrors.ErrCodeInvalidSyntax, "error parsing MERGE ON condition", models.Location{}, "", err)
+		return nil, goerrors.WrapError(goerrors.ErrCodeInvalidSyntax, "error parsing MERGE ON condition", p.currentLocation(), "", err)
 	}
 	stmt.OnCondition = onCondition
 
@@ -421,7 +421,7 @@ func (p *Parser) parseMergeStatement() (ast.Statement, error) {
 	}
 
 	if len(stmt.WhenClauses) == 0 {
-		return nil, goerrors.MissingClauseError("WHEN", models.Location{}, "")
+		return nil, goerrors.MissingClauseError("WHEN", p.currentLocation(), "")
 	}
 
 	return stmt, nil
@@ -464,7 +464,7 @@ func (p *Parser) parseMergeWhenClause() (*ast.MergeWhenClause, error) {
 		p.advance() // Consume AND
 		condition, err := p.parseExpression()
 		if err != nil {
-			return nil, goerrors.WrapError(goerrors.ErrCodeInvalidSyntax, "error parsing WHEN condition", models.Location{}, "", err)
+			return nil, goerrors.WrapError(goerrors.ErrCodeInvalidSyntax, "error parsing WHEN condition", p.currentLocation(), "", err)
 		}
 		clause.Condition = condition
 	}
@@ -527,7 +527,7 @@ func (p *Parser) parseMergeAction(clauseType string) (*ast.MergeAction, error) {
 
 			value, err := p.parseExpression()
 			if err != nil {
-				return nil, goerrors.WrapError(goerrors.ErrCodeInvalidSyntax, "error parsing SET value", models.Location{}, "", err)
+				return nil, goerrors.WrapError(goerrors.ErrCodeInvalidSyntax, "error parsing SET value", p.currentLocation(), "", err)
 			}
 			setClause.Value = value
 			action.SetClauses = append(action.SetClauses, setClause)
@@ -539,7 +539,7 @@ func (p *Parser) parseMergeAction(clauseType string) (*ast.MergeAction, error) {
 		}
 	} else if p.isType(models.TokenTypeInsert) {
 		if clauseType == "MATCHED" || clauseType == "NOT_MATCHED_BY_SOURCE" {
-			return nil, goerrors.InvalidSyntaxError(fmt.Sprintf("INSERT not allowed in WHEN %s clause", clauseType), models.Location{}, "")
+			return nil, goerrors.InvalidSyntaxError(fmt.Sprintf("INSERT not allowed in WHEN %s clause", clauseType), p.currentLocation(), "")
 		}
 		action.ActionType = "INSERT"
 		p.advance() // Consume INSERT
@@ -583,7 +583,7 @@ func (p *Parser) parseMergeAction(clauseType string) (*ast.MergeAction, error) {
 			for {
 				value, err := p.parseExpression()
 				if err != nil {
-					return nil, goerrors.WrapError(goerrors.ErrCodeInvalidSyntax, "error parsing INSERT value", models.Location{}, "", err)
+					return nil, goerrors.WrapError(goerrors.ErrCodeInvalidSyntax, "error parsing INSERT value", p.currentLocation(), "", err)
 				}
 				action.Values = append(action.Values, value)
 
@@ -602,7 +602,7 @@ func (p *Parser) parseMergeAction(clauseType string) (*ast.MergeAction, error) {
 		}
 	} else if p.isType(models.TokenTypeDelete) {
 		if clauseType == "NOT_MATCHED" {
-			return nil, goerrors.InvalidSyntaxError("DELETE not allowed in WHEN NOT MATCHED clause", models.Location{}, "")
+			return nil, goerrors.InvalidSyntaxError("DELETE not allowed in WHEN NOT MATCHED clause", p.currentLocation(), "")
 		}
 		action.ActionType = "DELETE"
 		p.advance() // Consume DELETE
